@@ -635,7 +635,7 @@ func (g *Grammar) sample(r *Rand, i, depth int, sb *strings.Builder) {
 	case "float":
 		sb.WriteString([]string{"1.5", "-0.25", "2.0e3"}[r.Intn(3)])
 	case "str":
-		sb.WriteString([]string{`"ab"`, `""`, "`a b`", `"a\nb"`, `"héllo"`, `"naïve"`, `"ü"`, `"x\ty"`}[r.Intn(8)])
+		sb.WriteString([]string{`"ab"`, `""`, "`a b`", `"a\nb"`, `"héllo"`, `"naïve"`, `"ü"`, `"x\ty"`, `"C:\\new\\t"`, `"\\"`}[r.Intn(10)])
 	case "char":
 		sb.WriteString([]string{`'a'`, `'\n'`, `'b'`}[r.Intn(3)])
 	case "bool":
@@ -772,7 +772,8 @@ func (r *renderer) node(n parsley.Node) {
 		}
 		r.sb.WriteString("}")
 	case parsley.LiteralNode:
-		fmt.Fprintf(&r.sb, "%s(%T:%v)%d..%d", x.Token(), x.Value(), x.Value(), x.Pos(), x.ReaderPos())
+		val := x.Value() // exactly one read per rendering
+		fmt.Fprintf(&r.sb, "%s(%T:%v)%d..%d", x.Token(), val, val, x.Pos(), x.ReaderPos())
 	default:
 		fmt.Fprintf(&r.sb, "%s<%T>%d..%d", x.Token(), x, x.Pos(), x.ReaderPos())
 	}
